@@ -49,11 +49,18 @@ def parseToks : List String → Option (List (Option (List UInt8)))
       let b ← parseBytes t
       some (some b :: r)
 
-def shaToks {W : Type} (P : ShaStream.Params W) (toks : List (Option (List UInt8))) : Option (List UInt8) :=
+def shaToksFrom {W : Type} (P : ShaStream.Params W) (c0 : ShaStream.Ctx W) (toks : List (Option (List UInt8))) : Option (List UInt8) :=
   ShaStream.result P (toks.foldl (fun c t =>
     match t with
     | none => ShaStream.finish P c
-    | some b => ShaStream.input P c b) (ShaStream.reset P))
+    | some b => ShaStream.input P c b) c0)
+
+def shaToks {W : Type} (P : ShaStream.Params W) (toks : List (Option (List UInt8))) : Option (List UInt8) :=
+  shaToksFrom P (ShaStream.reset P) toks
+
+/-- the context after Reset with the bit counter preset (harness op md_stream_len) -/
+def shaPreset {W : Type} (P : ShaStream.Params W) (bits : Nat) (toks : List (Option (List UInt8))) : Option (List UInt8) :=
+  shaToksFrom P { ShaStream.reset P with lenBits := bits % 2 ^ (8 * P.lenBytes) } toks
 
 /-- branch labels of the streaming SHA model for a token list (block size bs, length field lb) -/
 def shaTags (bs lb : Nat) (toks : List (Option (List UInt8))) : List String :=
@@ -114,6 +121,20 @@ def handle (op : String) (args : List String) : Option Verdict :=
     let afterFin := (ts.dropWhile Option.isSome).filterMap id
     let spec := if afterFin.any (fun c => !c.isEmpty) then "err" else fmtBytes (H.h (ts.filterMap id).flatten)
     some { model := mdl, spec := [spec], tags := shaTags H.blockLen (H.blockLen / 8) ts }
+  | "md_stream_len", alg :: bits :: toks => do
+    let bits ← parseHexNat bits
+    let cs ← toks.mapM parseBytes
+    let ts := cs.map some
+    let mdl ←
+      match alg with
+      | "sh256" => some (optBytes (shaPreset ShaStream.sha256P bits ts))
+      | "sh224" => some (optBytes (shaPreset ShaStream.sha224P bits ts))
+      | "sh384" => some (optBytes (shaPreset ShaStream.sha384P bits ts))
+      | "sh512" => some (optBytes (shaPreset ShaStream.sha512P bits ts))
+      | _ => none
+    -- no independent specification for a preset counter (the standard knows no such state): these lines tie the counter /
+    -- overflow branch of the model to the implementation; the spec column repeats the model
+    some { model := mdl, spec := [mdl], tags := [if mdl == "err" then "sha-counter-test-fires" else "sha-counter-preset-ok"] }
   | "b2s_stream", ol :: k :: toks => do
     let ol ← ol.toNat?
     let k ← parseBytes k
